@@ -135,7 +135,7 @@ def extract(repo="/repo", mir_opt="0", features="default", verbose=True):
             shutil.rmtree(out, ignore_errors=True)
         # prune old cache entries
         ents = sorted(glob.glob(os.path.join(CACHE, "facts-*")), key=os.path.getmtime, reverse=True)
-        for e in ents[10:]:
+        for e in ents[40:]:
             shutil.rmtree(e, ignore_errors=True)
         if verbose:
             sys.stderr.write("[facts] extracted %s in %.1fs -> %s\n" % (repo, time.time() - t0, dest))
